@@ -620,6 +620,16 @@ func genInline(p *packages.Package, s *inlSite, n int, src func(string) []byte) 
 		if nme, ok := imports[pk.Path()]; ok {
 			return nme
 		}
+		// a type of a package the calling file does not import: import it there under a fresh name
+		if s.addedImports != nil && s.preEdits != nil {
+			want := s.addedImports[pk.Path()]
+			if want == "" {
+				want = fmt.Sprintf("inlimp%d", len(s.addedImports)+1)
+				s.addedImports[pk.Path()] = want
+				*s.preEdits = append(*s.preEdits, inlEdit{s.file.Name.End(), "\nimport " + want + " \"" + pk.Path() + "\"\n"})
+			}
+			return want
+		}
 		qualFail = pk.Path()
 		return pk.Name()
 	}
